@@ -776,6 +776,9 @@ fn c12_oracle(sc: &Scenario, ex: &Execution, info: &mut CaseInfo) -> Vec<Finding
     f.extend(orc::capacity(&h));
     f.extend(orc::hangup(&h));
     f.extend(orc::add_stream(&h, 0));
+    let (sp, judged) = orc::spurious_while_quiet(&h);
+    info.count("refusals_outside_any_overlap_judged_against_the_model", judged);
+    f.extend(sp);
     // a hang (receiver never woken, producer refused for ever, task never notified) after a
     // population change is an observable effect of the change
     f.extend(note_stuck(&h, info));
@@ -912,7 +915,11 @@ fn c06_oracle(sc: &Scenario, ex: &Execution, info: &mut CaseInfo) -> Vec<Finding
     info.class(format!("streams_alive_at_probe={}", h.streams.values().filter(|s| s.handles.values().any(|x| x.1 == u64::MAX || x.1 > h.t_end / 2)).count().min(4)));
     info.nontrivial = probed && overlap && wrap;
     let _ = note_stuck(&h, info);
-    orc::quiescent(&h, probe_op)
+    let mut f = orc::quiescent(&h, probe_op);
+    let (sp, judged) = orc::spurious_while_quiet(&h);
+    info.count("refusals_outside_any_overlap_judged_against_the_model", judged);
+    f.extend(sp);
+    f
 }
 
 // ---- C10 -----------------------------------------------------------------------------------
